@@ -344,7 +344,7 @@ def check(ctx):
     pi_ = [n for n, cfid, nm in itf.calls() if nm == 'engine::Search::print_info']
     if not roots_ or not bm_:
         raise AnalysisBroken('C05: the root search call / the assignment of _best_move from a PV were not found in iter_search')
-    src_ = sorted({re.sub(r'\._pv_list\[0\]$', '', nf_.s(kids(n)[1])) for n in bm_} | {nf_.s(kids(c_)[-1]) for c_ in pi_})
+    src_ = sorted({re.sub(r'\._pv_list(\[0\]|\.front\(\)|\.at\(0\))$', '', nf_.s(kids(n)[1])) for n in bm_} | {nf_.s(kids(c_)[-1]) for c_ in pi_})
     ctx.ob('C05.R4.root-pv-frame', 'iter_search', len(frames_) == 1 and src_ == frames_,
            'the move answered and the PV printed are read from the frame the root search was given (search: %s, read: %s)' % (frames_, src_),
            site=itf.loc(bm_[0]))
